@@ -52,6 +52,12 @@ def cases(tier, seed):
                     yield dict(kind="grid", nn=nn, ne=ne, form=form, nd=2, nx=1, dims="default", dtype="float", order=order)
             for nanpat in ("one", "row", "all_vars_cell"):
                 yield dict(kind="grid", nn=nn, ne=ne, form="2d", nd=2, nx=1, dims="default", dtype="float", nan=nanpat)
+            # single-row / single-column 2-D arrays that are not meshgrids (seed C18-7) and DataArrays whose name is defined but falsy
+            # (seed C18-8)
+            for bad in ("row_n_varies", "col_e_varies", "row_n_varies_1d", "col_e_varies_1d"):
+                yield dict(kind="invalid", nn=max(nn, 2), ne=max(ne, 2), bad=bad)
+            for name in ("int0", "float0", "npint0"):
+                yield dict(kind="dataarray", nn=nn, ne=ne, order="ne", named=name, nx=0)
             for bad in ("non_meshgrid_e", "non_meshgrid_n", "mixed", "names_short", "names_long", "extra_names_short", "extra_names_long",
                         "extra_names_none", "data_names_none"):
                 yield dict(kind="invalid", nn=max(nn, 2), ne=max(ne, 2), bad=bad)
@@ -165,12 +171,16 @@ def run(case, rec):
             up = _values(9, nn, ne, "float", case.get("mem", "C"))
             da = da.assign_coords(upward=(("northing", "easting"), up))
             extras["upward"] = up
-        if case["named"]:
-            da.name = "temp"
+        colname = "scalars"
+        if case["named"] in ("int0", "float0", "npint0"):
+            colname = {"int0": 0, "float0": 0.0, "npint0": np.int64(0)}[case["named"]]
+            da.name = colname
+        elif case["named"]:
+            da.name = colname = "temp"
         tab = call(rec, vd.grid_to_table, da)
         if raised(tab):
             return rec.check(False, "grid_to_table(DataArray) raised %r" % (tab,))
-        _check_table(rec, tab, ("northing", "easting"), north, east, {"temp" if case["named"] else "scalars": vals}, extras)
+        _check_table(rec, tab, ("northing", "easting"), north, east, {colname: vals}, extras)
         rec.trivial = nn < 2 or ne < 2
         rec.cls("dataarray/%s/%s" % (order, "named" if case["named"] else "unnamed"))
         return
@@ -213,6 +223,15 @@ def run(case, rec):
         elif bad == "non_meshgrid_n":
             n_bad = n2.copy(); n_bad[0, -1] -= 0.5
             f = lambda: vd.make_xarray_grid((e2, n_bad), data, "d")
+        elif bad in ("row_n_varies", "row_n_varies_1d"):
+            # shape (1, ne): northing changes along the single row
+            e_row = east[None, :].copy(); n_row = (north[0] + np.arange(ne, dtype=float))[None, :]
+            d_row = data[:1, :]
+            f = (lambda: vd.make_xarray_grid((e_row, n_row), d_row, "d")) if bad == "row_n_varies" else (lambda: vd.utils.meshgrid_to_1d((e_row, n_row)))
+        elif bad in ("col_e_varies", "col_e_varies_1d"):
+            e_col = (east[0] + 2.0 * np.arange(nn, dtype=float))[:, None]; n_col = north[:, None].copy()
+            d_col = data[:, :1]
+            f = (lambda: vd.make_xarray_grid((e_col, n_col), d_col, "d")) if bad == "col_e_varies" else (lambda: vd.utils.meshgrid_to_1d((e_col, n_col)))
         elif bad == "mixed":
             f = lambda: vd.make_xarray_grid((east, n2), data, "d")
         elif bad == "names_short":
@@ -238,7 +257,7 @@ def _check_table(rec, tab, dims, north, east, data, extras):
     nn, ne = north.size, east.size
     rec.check(len(tab) == nn * ne, "table has %d rows, expected %d" % (len(tab), nn * ne))
     want_cols = set(dims) | set(data) | set(extras)
-    rec.check(set(tab.columns) == want_cols, "table columns %r != %r" % (sorted(tab.columns), sorted(want_cols)))
+    rec.check(set(tab.columns) == want_cols, "table columns %r != %r" % (sorted(map(repr, tab.columns)), sorted(map(repr, want_cols))))
     if len(tab) != nn * ne or set(tab.columns) != want_cols:
         return
     ok = True
